@@ -98,4 +98,10 @@ MultiValid(res, qs, k, filt, kind) ==
      /\ \A j \in 1..(n - 1) : res[j][2] >= res[j + 1][2] - Tol(res[j][2]) * Len(qs)
      /\ (all => n = Cardinality(U))
      /\ (k > 0 => n <= k)
+     \* a document that is surely in some per-query top-k list but left out of the truncated answer is not better than the last one returned
+     /\ (n > 0 /\ k > 0 => \A d \in U \ IdsOf(res) :
+            LET can  == {i \in Pos : d \in M[i]}
+                sure == {i \in can : Cardinality({x \in M[i] : QScore(qs[i], x) >= QScore(qs[i], d) - Tol(QScore(qs[i], d))}) <= k}
+            IN sure = {} \/ \E Q \in SUBSET can : /\ sure \subseteq Q
+                                                   /\ LET a == Agg(d, Q) IN a[1] <= (res[n][2] + Tol(res[n][2]) * Cardinality(Q) + 1) * a[2])
 =============================================================================
